@@ -37,6 +37,7 @@ PROPS = {
         "assumptions": ["input channel is eventually closed (finite stream)", "go-crc24q.Hash equals the bitwise CRC-24Q of the model (checked by correspondence)"],
     },
     "C02": {
+        "race": True,
         "title": "Stream segmentation is lossless: delivered raw bytes concatenate to the input",
         "design_ref": "DESIGN.md §7 C02, §4.3",
         "technique": "Lean 4 proof (termination measure + refinement to list-level scan, strong induction on stream length) + differential correspondence stream/streamcap",
@@ -147,6 +148,7 @@ PROPS = {
         "assumptions": ["IEEE-754 binary64 arithmetic; float64(uint64) conversion exact below 2^53"],
     },
     "C13": {
+        "race": True,
         "title": "Transient end-of-file or read timeouts on the input lose and duplicate nothing",
         "design_ref": "DESIGN.md §7 C13",
         "technique": "Lean 4 proof (read loop as a step function over a script of read results and an arbitrary clock oracle; induction on the script) + skeleton tie + differential correspondence with a scripted io.Reader and real tolerances",
@@ -158,6 +160,7 @@ PROPS = {
         "assumptions": ["bufio.Reader returns an underlying read error once and then retries the underlying reader", "the byte channel delivers bytes in FIFO order"],
     },
     "C15": {
+        "race": True,
         "title": "Decoding and display are deterministic and free of hidden state",
         "design_ref": "DESIGN.md §7 C15",
         "technique": "Lean 4 proof (decoders are functions of the frame only; time lines never touch type/raw) + extracted list of package-level variables and writes to them (none outside init) + differential correspondence across histories and concurrent handlers",
@@ -168,6 +171,7 @@ PROPS = {
         "assumptions": ["Go value semantics of struct copies; no data race in the exercised schedules (thorough tier runs under -race)"],
     },
     "C18": {
+        "race": True,
         "title": "The recent-message queue always holds the last N messages in arrival order",
         "design_ref": "DESIGN.md §7 C18",
         "technique": "Lean 4 proof (eviction loop = drop, window invariant by induction on the additions, any N >= 1) + locking skeleton tie + differential correspondence (exhaustive op patterns, long runs) + linearizability check of concurrent histories",
@@ -179,6 +183,7 @@ PROPS = {
         "assumptions": ["sync.RWMutex provides writer/reader exclusion"],
     },
     "C09": {
+        "race": True,
         "title": "The reader-to-sinks pipeline delivers the same messages under every schedule",
         "design_ref": "DESIGN.md §7 C09, §4.8",
         "technique": "Lean 4 proof (labelled transition system of reader, framer, fan-out, k consumers and main with Go channel semantics; inductive invariant, deadlock-freedom, strictly decreasing termination measure) + goroutine/channel skeleton tie + differential correspondence through the real Handle/HandleMessagesUntilEOF with perturbed consumers",
